@@ -275,7 +275,25 @@ func c09Walk(t *rapid.T, re *rootEnv, n *spec.Node, src reflect.Value, before, a
 		if e.F.Oneof != "" {
 			hf := hd.FieldByName(spec.CamelCase(e.F.Oneof))
 			if hf.IsNil() || hf.Elem().Type() != oneofWrapper(hd, e.Go) {
-				continue // inactive branch: C09 is silent (C07 speaks about empty targets only)
+				// inactive branch: the source holds nothing for it. An attribute that was non-null must not
+				// keep its old value: it is null or decodes to the zero value (which reads back as "unset")
+				if present(b) && e.F.Card == "" {
+					if e.F.Kind == spec.KMessage {
+						if present(a) {
+							fail("inactive-branch-follows-source", e, p, "branch is not selected in the source but the attribute is still %s (before: %s)", tfString(a), tfString(b))
+						}
+					} else if present(a) && !(e.F.Kind == spec.KTime && false) {
+						wt := oneofWrapper(hd, e.Go)
+						pt := wt.Elem().Field(0).Type
+						dec := refElem(e, a, pt)
+						if pt.Kind() == reflect.Ptr {
+							fail("inactive-branch-follows-source", e, p, "pointer-backed branch is not selected in the source but the attribute is %s", tfString(a))
+						} else if nfScalarValue(e.F, dec, false) != nil && e.F.Kind != spec.KTime {
+							fail("inactive-branch-follows-source", e, p, "branch is not selected in the source but the attribute keeps %s (before: %s)", tfString(a), tfString(b))
+						}
+					}
+				}
+				continue
 			}
 			fv = hf.Elem().Elem().Field(0)
 		} else {
